@@ -109,6 +109,8 @@ func H_two() {
 	}
 	// recorded finding: the superglobal caches are package-level variables shared by all requests
 	symx.KnownPanic("C11-shared-superglobal-cache", "on superglobal cache@", true)
+	// same root cause: B resets the cache to nil between A's nil test and A's use of it
+	symx.KnownPanic("C11-shared-superglobal-cache", "nil pointer dereference@(*github.com/php-any/origami/data.ObjectValue).GetProperty,(*github.com/php-any/origami/data.ObjectValue).SetProperty", true)
 	qs := [2]string{"1", "2"}
 	recs := [2]*recorder{{hdr: http.Header{}}, {hdr: http.Header{}}}
 	var wg sync.WaitGroup
